@@ -154,6 +154,18 @@ func c17Scenarios() []c17Scenario {
 			func(root string) { os.MkdirAll(filepath.Join(root, "out"), 0o755); os.Symlink("../unrelated/keep.js", filepath.Join(root, "out/a.js")) }},
 		{"entry-through-symlinked-dir", func(root string, o *api.BuildOptions) { o.EntryPoints, o.Outdir = ep(root, "link/a.js"), filepath.Join(root, "src") },
 			func(root string) { os.Symlink("src", filepath.Join(root, "link")) }},
+		{"entry-below-symlinked-dir", func(root string, o *api.BuildOptions) {
+			// an ordinary sub-directory below a symlinked directory: the input is link/app/main.js, the output location names it through the real directory
+			o.EntryPoints, o.Outdir = ep(root, "link/app/main.js"), filepath.Join(root, "src/app")
+		}, func(root string) { os.Symlink("src", filepath.Join(root, "link")) }},
+		{"import-below-symlinked-package-dir", func(root string, o *api.BuildOptions) {
+			// a workspace package linked into node_modules and imported by a sub-path two directories deep; the bundle's output lands on the real file
+			o.EntryPoints, o.Outdir, o.EntryNames = ep(root, "wrap/main.js"), filepath.Join(root, "src/app"), "[name]"
+		}, func(root string) {
+			os.MkdirAll(filepath.Join(root, "wrap/node_modules"), 0o755)
+			os.Symlink("../../src", filepath.Join(root, "wrap/node_modules/ws"))
+			os.WriteFile(filepath.Join(root, "wrap/main.js"), []byte("import 'ws/app/main.js';\nconsole.log('wrapper');\n"), 0o644)
+		}},
 		{"entry-through-symlinked-dir-preserve", func(root string, o *api.BuildOptions) {
 			o.EntryPoints, o.Outdir, o.PreserveSymlinks = ep(root, "link/a.js"), filepath.Join(root, "src"), true
 		}, func(root string) { os.Symlink("src", filepath.Join(root, "link")) }},
